@@ -63,7 +63,7 @@ ASSUMPTIONS = ["a node is 'live' iff failed < 2 (the BAD rule of Node.status / B
                "deterministic cost allowance lasts (one call costs up to 0.8 s on a 158-bucket sparse tree because "
                "Trie.suffixes is quadratic); calls beyond the allowance are skipped and counted (probe closest_skipped_cost); "
                "the tree shape is checked after every step regardless"]
-REACH = ["insitu_table_checks", "insitu_split_tables", "bucket_split", "deep_split_depth_ge_8", "deep_split_depth_ge_64", "full_bucket_not_on_path_rejects",
+REACH = ["insitu_table_checks", "insitu_split_tables", "insitu_node_back_under_another_ip", "bucket_split", "deep_split_depth_ge_8", "deep_split_depth_ge_64", "full_bucket_not_on_path_rejects",
          "bad_node_removed", "bad_node_evicted_on_add", "rtt_eviction_on_add", "update_same_id",
          "closest_spans_multiple_buckets", "closest_fewer_than_k", "closest_bad_filtered", "closest_exclude_hit",
          "same_key_two_ids_live", "generate_id_sampled_nonroot", "status_changed_by_clock",
